@@ -51,6 +51,15 @@ func treeSig(o *CLIOutcome, prefix string) string {
 	return fmt.Sprintf("exit=%d|%s", o.Exit, strings.Join(ps, "|"))
 }
 
+// opSig renders the op log of a CLI world.
+func opSig(o *CLIOutcome) string {
+	var b strings.Builder
+	for _, op := range o.Rec.Ops {
+		fmt.Fprintf(&b, "%s:%s:%s:%v:%v:%s;", op.Op, op.Path, op.Path2, op.Write, op.Escaped, op.Fault)
+	}
+	return b.String()
+}
+
 // cliDiff compares the output subtrees of two outcomes per target.
 func cliDiff(a, b *CLIOutcome) (targets []string, diffs map[string][]string) {
 	diffs = map[string][]string{}
@@ -108,6 +117,7 @@ func c13CLI(c *Ctx, n int) error {
 		}
 		c.ev.AddRecord(&o0.Rec)
 		c.ev.Count("cli_worlds", 1)
+		c.event(fmt.Sprintf("c13cli|%d|ref", i), text, argv, o0.Rec.Choices, treeSig(o0, ""), opSig(o0))
 		if o0.Exit != 0 {
 			c.ev.Count("cli_programs_exit_nonzero", 1)
 		}
@@ -137,6 +147,7 @@ func c13CLI(c *Ctx, n int) error {
 			}
 			c.ev.AddRecord(&oi.Rec)
 			c.ev.Count("cli_worlds", 1)
+			c.event(fmt.Sprintf("c13cli|%d|%d", i, k), oi.Rec.Choices, treeSig(oi, ""), opSig(oi))
 			if sig, non := choiceSig(oi.Rec.Choices); non {
 				c.ev.MarkDistinct(fmt.Sprintf("cli|%x|%s", seed, sig))
 			}
